@@ -33,7 +33,7 @@ def gen_cases(rng, tier):
     cases = []
     for k in range(n):
         ns = rng.randint(1, maxn)
-        nd = 1 if rng.random() < 0.8 else 2
+        nd = 1 if rng.random() < 0.7 else 2
         eq = rng.random() < 0.5
         L = rng.randint(1, 5)
         series = [dtwgen.rand_series(rng, L if eq else rng.randint(1, 5), nd) for _ in range(ns)]
@@ -66,7 +66,9 @@ def gen_cases(rng, tier):
         if peaks and rng.random() < 0.7:
             st["window"] = None
         cases.append({"site": eng + "." + out, "eng": eng, "out": out, "series": series, "ndim": nd, "block": block,
-                      "as_matrix": eq and rng.random() < 0.5, "settings": st, "n": ns})
+                      "as_matrix": eq and rng.random() < 0.5, "settings": st, "n": ns,
+                      # memory layout of the members of a list of 2-D series: row-major, column-major, transposed view
+                      "layout": rng.choice(["C", "C", "F", "T_view"]) if nd > 1 else "C"})
     return cases
 
 
@@ -97,6 +99,8 @@ def impl_run(case):
     nd = case["ndim"]
     kw = dtwimpl.kwargs(case["settings"], 1)
     ser = [np.array(x, dtype=np.double).reshape((len(x), nd) if nd > 1 else (len(x),)) for x in case["series"]]
+    if nd > 1 and case.get("layout", "C") != "C" and not case["as_matrix"]:
+        ser = [np.asfortranarray(a) if case["layout"] == "F" else np.ascontiguousarray(a.T).T for a in ser]
     cont = np.array(ser) if case["as_matrix"] else ser
     use_c = case["eng"] == "c"
     b = case["block"]
@@ -188,6 +192,6 @@ def case_size(case):
 
 def histogram_keys(case):
     b = case["block"]
-    return ["site:" + case["site"], "n=%d" % case["n"], "ndim:%d" % case["ndim"],
+    return ["site:" + case["site"], "n=%d" % case["n"], "ndim:%d" % case["ndim"], "layout:" + case.get("layout", "C"),
             "block:" + ("none" if b is None else ("notriu" if len(b) > 2 else "triu")),
             "container:" + ("matrix" if case["as_matrix"] else "list")]
